@@ -119,6 +119,11 @@ pub struct Failure {
     pub known: Option<String>,
 }
 
+/// marker for a panic of the harness itself (generator/model bug): reported as inconclusive
+/// (exit 2), never as a violation of the property
+pub const HARNESS_BUG: &str = "__harness_bug__";
+static HARNESS_BUGS: Mutex<Vec<String>> = Mutex::new(Vec::new());
+
 impl Failure {
     pub fn new(msg: impl Into<String>) -> Self {
         Failure { msg: msg.into(), known: None }
@@ -230,7 +235,15 @@ pub fn guard<T>(f: impl FnOnce() -> T) -> Result<T, String> {
 fn run_guarded(prop: &dyn Prop, tape: &[u16], st: &mut Stats) -> PResult {
     match guard(|| prop.run(tape, st)) {
         Ok(r) => r,
-        Err(p) => Err(Failure::new(format!("harness/code panic outside a guarded call: {p}"))),
+        Err(p) => {
+            // every call into the library is wrapped in its own guard by the property code, so a
+            // panic arriving here is a bug of the harness (generator, model, oracle)
+            let mut b = HARNESS_BUGS.lock().unwrap();
+            if b.len() < 5 {
+                b.push(format!("{p} (tape of {} entries)", tape.len()));
+            }
+            Err(Failure::known(HARNESS_BUG, format!("harness panic: {p}")))
+        }
     }
 }
 
@@ -654,10 +667,15 @@ pub fn drive(prop: &dyn Prop, ctx: &Ctx, replay: Option<&Path>, cases_override: 
         total.known_hits,
         wall
     );
+    let bugs = HARNESS_BUGS.lock().unwrap().clone();
     match violation {
         Some((path, _)) => {
             println!("VIOLATION property={} replay={}", prop.id(), path.display());
             1
+        }
+        None if !bugs.is_empty() => {
+            println!("HARNESS ERROR (inconclusive, not a violation): the harness itself panicked: {bugs:?}");
+            2
         }
         None => 0,
     }
